@@ -211,9 +211,194 @@ def tm_unfz(v):
 
 
 def within(v, lo, hi, facts=()):
-    l, h = interval(v, facts)
-    if lo is not None and (l is None or l < lo):
-        return False
-    if hi is not None and (h is None or h > hi):
-        return False
-    return True
+    return subset(ivals(v, facts), lo, hi)
+
+
+# ----------------------------------------------------------------------------- interval *sets*
+MAXIV = 6
+
+
+def _norm(ivs):
+    """Sort/merge a list of (lo, hi) (None = unbounded)."""
+    ivs = [iv for iv in ivs if not (iv[0] is not None and iv[1] is not None and iv[0] > iv[1])]
+    if not ivs:
+        return []
+    inf = float("inf")
+    ivs.sort(key=lambda iv: (-inf if iv[0] is None else iv[0]))
+    out = [ivs[0]]
+    for lo, hi in ivs[1:]:
+        plo, phi = out[-1]
+        if phi is None or (lo is not None and lo <= phi + 1) or lo is None:
+            nhi = None if (phi is None or hi is None) else max(phi, hi)
+            out[-1] = (plo, nhi)
+        else:
+            out.append((lo, hi))
+    if len(out) > MAXIV:
+        out = [(out[0][0], out[-1][1])]
+    return out
+
+
+def _cut(ivs, lo, hi):
+    out = []
+    for a, b in ivs:
+        na = a if lo is None else (lo if a is None else max(a, lo))
+        nb = b if hi is None else (hi if b is None else min(b, hi))
+        out.append((na, nb))
+    return _norm(out)
+
+
+def _refine_set(v, f, ivs, depth=0):
+    """Refine the interval set of term v by fact f."""
+    if not isinstance(f, T) or depth > 8:
+        return ivs
+    if f.op == "land":
+        for g in f.args:
+            ivs = _refine_set(v, g, ivs, depth + 1)
+        return ivs
+    if f.op == "lor":
+        out = []
+        for g in f.args:
+            out.extend(_refine_set(v, g, list(ivs), depth + 1))
+        return _norm(out)
+    if f.op == "cmp":
+        op, a, b = f.args
+        if tm.veq(a, v) and isinstance(b, int) and not isinstance(b, bool):
+            if op == "lt":
+                return _cut(ivs, None, b - 1)
+            if op == "le":
+                return _cut(ivs, None, b)
+            if op == "gt":
+                return _cut(ivs, b + 1, None)
+            if op == "ge":
+                return _cut(ivs, b, None)
+            if op == "eq":
+                return _cut(ivs, b, b)
+            if op == "ne":
+                return _norm(_cut(ivs, None, b - 1) + _cut(ivs, b + 1, None))
+        return ivs
+    if f.op == "inrange" and tm.veq(f.args[0], v):
+        a, b = f.args[1], f.args[2]
+        return _cut(ivs, a if isinstance(a, int) else None, (b - 1) if isinstance(b, int) else None)
+    if f.op == "truth" and tm.veq(f.args[0], v):
+        return _norm(_cut(ivs, None, -1) + _cut(ivs, 1, None))
+    if f.op == "not":
+        g = f.args[0]
+        if isinstance(g, T):
+            if g.op == "truth" and tm.veq(g.args[0], v):
+                return _cut(ivs, 0, 0)
+            if g.op == "inrange" and tm.veq(g.args[0], v):
+                a, b = g.args[1], g.args[2]
+                if isinstance(a, int) and isinstance(b, int):
+                    return _norm(_cut(ivs, None, a - 1) + _cut(ivs, b, None))
+                return ivs
+            if g.op == "lor":
+                for h in g.args:
+                    ivs = _refine_set(v, tm.lnot(h), ivs, depth + 1)
+                return ivs
+            if g.op == "land":
+                out = []
+                for h in g.args:
+                    out.extend(_refine_set(v, tm.lnot(h), list(ivs), depth + 1))
+                return _norm(out)
+    return ivs
+
+
+def ivals(v, facts=(), depth=0):
+    """Interval set of an integer term: list of disjoint (lo, hi)."""
+    ivs = _ivals_base(v, facts, depth)
+    if isinstance(v, T):
+        for f in facts:
+            ivs = _refine_set(v, f, ivs)
+    return ivs
+
+
+def _ivals_base(v, facts, depth):
+    if isinstance(v, bool):
+        return [(int(v), int(v))]
+    if isinstance(v, int):
+        return [(v, v)]
+    if not isinstance(v, T) or depth > 30:
+        return [(None, None)]
+    o, a = v.op, v.args
+    if o == "mod" and isinstance(a[1], int) and a[1] > 0:
+        m = a[1]
+        out = []
+        for lo, hi in ivals(a[0], facts, depth + 1):
+            if lo is None or hi is None:
+                return [(0, m - 1)]
+            if 0 <= lo and hi < m:
+                out.append((lo, hi))
+            elif -m <= lo and hi < 0:
+                out.append((lo + m, hi + m))
+            elif lo // m == hi // m:
+                out.append((lo % m, hi % m))
+            else:
+                return [(0, m - 1)]
+        return _norm(out)
+    if o == "mul" and len(a) == 2 and isinstance(a[0], int):
+        c = a[0]
+        out = []
+        for lo, hi in ivals(a[1], facts, depth + 1):
+            if c >= 0:
+                out.append((None if lo is None else c * lo, None if hi is None else c * hi))
+            else:
+                out.append((None if hi is None else c * hi, None if lo is None else c * lo))
+        return _norm(out)
+    if o == "add" and sum(1 for x in a if not isinstance(x, int)) == 1:
+        c = sum(x for x in a if isinstance(x, int))
+        t = [x for x in a if not isinstance(x, int)][0]
+        return _norm([(None if lo is None else lo + c, None if hi is None else hi + c) for lo, hi in ivals(t, facts, depth + 1)])
+    if o == "ite":
+        c = a[0]
+        return _norm(ivals(tm_unfz(a[1]), list(facts) + [c], depth + 1) + ivals(tm_unfz(a[2]), list(facts) + [tm.lnot(c)], depth + 1))
+    if o == "loopout":
+        name, kind, cond, body_items, init_items, d = a
+        body = dict((k, x) for k, x in body_items)
+        init = dict((k, x) for k, x in init_items)
+        cur = ivals(tm_unfz(init.get(name)), facts, depth + 1) if name in init else [(None, None)]
+        bval = tm_unfz(body.get(name))
+
+        def with_acc(current):
+            # evaluate the body value with acc(name) ranging over `current`
+            pseudo = []
+            accs = [s for s in tm.subterms(bval) if isinstance(s, T) and s.op == "acc" and s.args[1] == d]
+            fs = list(facts)
+            for s in accs:
+                if s.args[0] == name:
+                    lo = min((x[0] for x in current), default=None) if all(x[0] is not None for x in current) else None
+                    hi = max((x[1] for x in current), default=None) if all(x[1] is not None for x in current) else None
+                    if lo is not None:
+                        fs.append(tm.cmp("ge", s, lo))
+                    if hi is not None:
+                        fs.append(tm.cmp("le", s, hi))
+            return ivals(bval, fs, depth + 1)
+
+        for _ in range(3):
+            nxt = _norm(cur + with_acc(cur))
+            if nxt == cur:
+                break
+            cur = nxt
+        else:
+            nxt = _norm(cur + with_acc(cur))
+            if nxt != cur:
+                cur = [(None, None)]
+        # the loop left: its condition is false on the final values
+        if kind == "while" and isinstance(cond, T):
+            def back(s):
+                if isinstance(s, T) and s.op == "acc" and s.args[1] == d and s.args[0] == name:
+                    return v
+                return None
+            exitfact = tm.lnot(tm.subst(cond, back))
+            cur = _refine_set(v, exitfact, cur)
+        return cur
+    lo, hi = _base(v, facts, depth)
+    return [(lo, hi)]
+
+
+def subset(ivs, lo, hi):
+    for a, b in ivs:
+        if lo is not None and (a is None or a < lo):
+            return False
+        if hi is not None and (b is None or b > hi):
+            return False
+    return bool(ivs)
